@@ -8,8 +8,10 @@ import (
 	"os"
 	"os/exec"
 	"path/filepath"
+	"runtime"
 	"sort"
 	"strings"
+	"sync"
 	"time"
 
 	astisub "github.com/asticode/go-astisub"
@@ -54,6 +56,10 @@ type C20Scenario struct {
 	Mean      float64            `json:"mean,omitempty"`   // mean number of scheduling points between two parks
 	Decisions [][]sched.Decision `json:"decisions,omitempty"`
 	Build     string             `json:"build"` // "inst" | "plain": which binary family runs it
+	// Real: secondary cross-check (thorough tier) - the tasks of every phase are released simultaneously on real
+	// threads with GOMAXPROCS=Procs, no scheduler. Not replay-exact; labelled as such wherever it is reported.
+	Real  bool `json:"real,omitempty"`
+	Procs int  `json:"procs,omitempty"`
 }
 
 var c20Frozen = time.Date(2020, 5, 17, 10, 0, 0, 0, time.UTC)
@@ -197,6 +203,9 @@ type ScenarioResult struct {
 func runScenario(sc C20Scenario, siteFunc map[int]string) ScenarioResult {
 	var out ScenarioResult
 	root := prng.New(sc.Seed)
+	if sc.Real {
+		return runScenarioReal(sc)
+	}
 	for pi, phase := range sc.Phases {
 		var pr PhaseResult
 		pr.Records = make([][]string, len(phase))
@@ -247,6 +256,33 @@ func runScenario(sc C20Scenario, siteFunc map[int]string) ScenarioResult {
 		if pr.Err != "" {
 			break // goroutines of an abandoned phase may still run: nothing after it is meaningful
 		}
+	}
+	return out
+}
+
+// runScenarioReal releases the tasks of each phase at the same time on real threads.
+func runScenarioReal(sc C20Scenario) ScenarioResult {
+	var out ScenarioResult
+	if sc.Procs > 0 {
+		defer runtime.GOMAXPROCS(runtime.GOMAXPROCS(sc.Procs))
+	}
+	for _, phase := range sc.Phases {
+		var pr PhaseResult
+		pr.Records = make([][]string, len(phase))
+		var wg sync.WaitGroup
+		start := make(chan struct{})
+		for i, ti := range phase {
+			wg.Add(1)
+			go func(i int, prog TaskProg) {
+				defer wg.Done()
+				<-start
+				pr.Records[i] = execTask(prog)
+			}(i, sc.Tasks[ti])
+		}
+		close(start)
+		wg.Wait()
+		pr.TraceHash = "real-threads"
+		out.Phases = append(out.Phases, pr)
 	}
 	return out
 }
@@ -342,7 +378,8 @@ func runChildProc(cfg Config, bin string, req c20Req, timeout time.Duration) (c2
 	cmd := exec.Command(bin, args...)
 	var stdout, stderr bytes.Buffer
 	cmd.Stdout, cmd.Stderr = &stdout, &stderr
-	cmd.Env = append(os.Environ(), "GORACE=halt_on_error=0 history_size=4")
+	// one P: only one task is runnable at a time anyway, and per-P caches (sync.Pool) then behave the same in every run
+	cmd.Env = append(os.Environ(), "GORACE=halt_on_error=0 history_size=4", "GOMAXPROCS=1")
 	if err := cmd.Start(); err != nil {
 		return resp, "", err
 	}
@@ -466,6 +503,7 @@ func computePristine(cfg Config, build string, p TaskProg) pristine {
 // ---- scenario generation ------------------------------------------------------
 
 type c20Limits struct {
+	realRuns  int // per worker: scenarios also run on real threads (secondary cross-check)
 	scenarios int
 	maxTasks  int
 	batch     int
@@ -474,7 +512,7 @@ type c20Limits struct {
 
 func c20LimitsFor(tier string) c20Limits {
 	if tier == "thorough" {
-		return c20Limits{scenarios: 6000, maxTasks: 32, batch: 12, plainFrac: 0.25}
+		return c20Limits{scenarios: 6000, maxTasks: 32, batch: 12, plainFrac: 0.25, realRuns: 60}
 	}
 	if tier == "smoke" { // determinism self-test only
 		return c20Limits{scenarios: 32, maxTasks: 6, batch: 8, plainFrac: 0.25}
@@ -543,10 +581,21 @@ func genOps(r *prng.R) []api.Op {
 	return ops
 }
 
-func genTask(r *prng.R, pool *docPool, idx int) TaskProg {
+func genTask(r *prng.R, pool *docPool, idx int, theme string) TaskProg {
 	d := pool.docs[r.Intn(len(pool.docs))]
 	if r.Bool(0.35) { // bias towards the teletext charset documents: the shared tables with conflicting patches
 		d = pool.docs[r.Intn(8)]
+	}
+	if theme != "" && theme != "writers" { // themed scenario: every task works on the same format (different documents)
+		var same []corpus.Doc
+		for _, x := range pool.docs {
+			if x.Format == theme {
+				same = append(same, x)
+			}
+		}
+		if len(same) > 0 {
+			d = same[r.Intn(len(same))]
+		}
 	}
 	readers := corpus.ReaderConfigs(d.Format)
 	t := TaskProg{Name: fmt.Sprintf("t%d:%s", idx, d.Name), Doc: d.Data, Reader: readers[r.Intn(len(readers))]}
@@ -578,9 +627,17 @@ func genScenario(root *prng.R, pool *docPool, j int, lim c20Limits) C20Scenario 
 		n = r.Range(7, lim.maxTasks)
 	}
 	sc := C20Scenario{Seed: r.Uint64(), Policy: r.Pick("uniform", "rr", "burst", "starve0"), Mean: float64(r.PickInt(1, 2, 5, 20, 100, 1000))}
+	// swarm: a third of the scenarios are themed (all tasks on one format, so that the same functions and
+	// tables are in use by several tasks at once), some are "writer storms" (all tasks write the same formats)
+	theme := r.Pick("", "", "", "", "ts", "stl", "vtt", "srt", "ssa", "ttml", "writers", "writers")
+	storm := []string{api.WriterFormats[r.Intn(len(api.WriterFormats))], api.WriterFormats[r.Intn(len(api.WriterFormats))]}
 	var all []int
 	for i := 0; i < n; i++ {
-		sc.Tasks = append(sc.Tasks, genTask(r, pool, i))
+		t := genTask(r, pool, i, theme)
+		if theme == "writers" {
+			t.Writers = storm
+		}
+		sc.Tasks = append(sc.Tasks, t)
 		all = append(all, i)
 	}
 	sc.Phases = append(sc.Phases, all)
@@ -625,9 +682,13 @@ func (e *c20Eval) judge(sc C20Scenario, res ScenarioResult, races []string) (vs 
 		withDecisions.Decisions = append(withDecisions.Decisions, ph.Decisions)
 	}
 	scJSON, _ := json.Marshal(withDecisions)
+	mode := ""
+	if sc.Real {
+		mode = " (real threads, not replay-exact)"
+	}
 	for _, rep := range races {
 		sig := raceSignature(rep)
-		vs = append(vs, Violation{Property: "C20", Class: "data-race", Signature: "C20 data-race " + sig,
+		vs = append(vs, Violation{Property: "C20", Class: "data-race", Signature: "C20 data-race " + sig + mode,
 			Detail: fmt.Sprintf("the race detector reported a data race between tasks that share no data (%d tasks, policy %s):\n%s", len(sc.Tasks), sc.Policy, trunc(rep, 3000)), Scenario: scJSON})
 	}
 	for pi, ph := range res.Phases {
@@ -821,6 +882,54 @@ func RunC20(cfg Config) (*ShardResult, error) {
 				res.Violations = append(res.Violations, cvs...)
 				if len(res.Violations) > 20 {
 					return res, nil
+				}
+			}
+		}
+	}
+	// secondary cross-check, thorough tier only: the same task multisets released simultaneously on real
+	// threads under the race detector with GOMAXPROCS in {2,4,16}. Not schedule-controlled, not replay-exact.
+	if lim.realRuns > 0 {
+		var reals []C20Scenario
+		for k, sc := range mine {
+			if k >= lim.realRuns {
+				break
+			}
+			r := sc
+			r.Real, r.Procs, r.Decisions = true, []int{2, 4, 16}[k%3], nil
+			r.Phases = r.Phases[:1]
+			reals = append(reals, r)
+		}
+		for b := 0; b < len(reals); b += lim.batch {
+			end := b + lim.batch
+			if end > len(reals) {
+				end = len(reals)
+			}
+			for _, build := range []string{"inst", "plain"} {
+				var batch []C20Scenario
+				for _, sc := range reals[b:end] {
+					if sc.Build == build {
+						batch = append(batch, sc)
+					}
+				}
+				if len(batch) == 0 {
+					continue
+				}
+				results, races, err := e.runBatch(build, batch)
+				if err != nil {
+					res.Notes = append(res.Notes, "real-thread batch failed: "+trunc(err.Error(), 200))
+					continue
+				}
+				for i, sc := range batch {
+					if i >= len(results) {
+						break
+					}
+					res.Evaluations++
+					res.Extra["real_thread_runs"]++
+					res.Extra[fmt.Sprintf("real_thread_runs_gomaxprocs_%d", sc.Procs)]++
+					vs, _ := e.judge(sc, results[i], races[i])
+					if len(vs) > 0 {
+						res.Violations = append(res.Violations, vs[0])
+					}
 				}
 			}
 		}
